@@ -238,7 +238,7 @@ func main() {
 	} else {
 		grid = append(grid, 1401) // ~ the transport's maximum packet payload
 	}
-	r.SetRule("Seal/Open on the real AEAD vs refsanse: key length 1..199 x 3 fillings x (|P|,|A|) shapes (all pairs of the boundary grid for key length 16, diagonal + boundary cross otherwise); sessions of <=3 messages; every single-bit flip of ciphertext||tag and of A; every key byte flipped for every key length; aliasing layouts; raw Kra/Vatte with every boundary-adjacent split; both permutation builds. distinct_nontrivial = distinct (key length,|P|,|A|) shapes whose Seal output was compared with the reference, measured.")
+	r.SetRule("Seal/Open on the real AEAD vs refsanse: key length 1..199 x 3 fillings x (|P|,|A|) shapes (all pairs of the boundary grid for key length 16, diagonal + boundary cross otherwise); sessions of <=3 (quick) / <=5 (thorough) messages; thorough adds the full (|P|,|A|) grid for 16 more key lengths and every |P| in 0..1024; every single-bit flip of ciphertext||tag and of A; every key byte flipped for every key length; aliasing layouts; raw Kra/Vatte with every boundary-adjacent split; both permutation builds. distinct_nontrivial = distinct (key length,|P|,|A|) shapes whose Seal output was compared with the reference, measured.")
 
 	// 1. conformance
 	var cases []sealCase
@@ -252,6 +252,22 @@ func main() {
 		for f := 0; f < 3; f++ {
 			for _, n := range cross {
 				cases = append(cases, sealCase{l, f, n, n}, sealCase{l, f, n, 0}, sealCase{l, f, 0, n}, sealCase{l, f, n, 17})
+			}
+		}
+	}
+	if r.Thorough() {
+		// the full grid x grid for key lengths around every lane / block edge, and every plaintext
+		// length 0..1024 for two key lengths
+		for _, l := range []int{1, 7, 8, 9, 15, 17, 24, 31, 32, 33, 64, 127, 128, 129, 198, 199} {
+			for _, p := range grid {
+				for _, a := range grid {
+					cases = append(cases, sealCase{l, 1, p, a})
+				}
+			}
+		}
+		for _, l := range []int{16, 33} {
+			for p := 0; p <= 1024; p++ {
+				cases = append(cases, sealCase{l, 2, p, 0}, sealCase{l, 2, p, 17}, sealCase{l, 2, 17, p})
 			}
 		}
 	}
@@ -274,13 +290,17 @@ func main() {
 			msgs = append(msgs, msg{p, a})
 		}
 	}
+	maxSession := 3
+	if r.Thorough() {
+		maxSession = 5 // 8 + 64 + ... + 32768 sequences
+	}
 	var seqs [][]msg
 	var rec func(cur []msg)
 	rec = func(cur []msg) {
 		if len(cur) > 0 {
 			seqs = append(seqs, append([]msg{}, cur...))
 		}
-		if len(cur) == 3 {
+		if len(cur) == maxSession {
 			return
 		}
 		for _, m := range msgs {
